@@ -170,7 +170,27 @@ type c07Sess struct {
 	inEstablished bool // reported state before the current event
 }
 
-func c07Start(t *testing.T, cfg c07Cfg) *c07Sess {
+func c07Start(t *testing.T, cfg c07Cfg) *c07Sess { return c07StartPeer(t, cfg, nil) }
+
+// c07PeerConf is the passive single-family peer of the session scenarios
+func c07PeerConf(cfg c07Cfg) *api.Peer {
+	p := &api.Peer{
+		Conf:      &api.PeerConf{NeighborAddress: c07PeerAddr, PeerAsn: cfg.peerAS},
+		Transport: &api.Transport{PassiveMode: true},
+		Timers: &api.Timers{Config: &api.TimersConfig{HoldTime: uint64(cfg.hold),
+			KeepaliveInterval: uint64(cfg.hold / 3), IdleHoldTimeAfterReset: uint64(cfg.idleAfterReset)}},
+	}
+	if cfg.prefixLimit > 0 {
+		p.AfiSafis = []*api.AfiSafi{{
+			Config: &api.AfiSafiConfig{Family: &api.Family{Afi: api.Family_AFI_IP, Safi: api.Family_SAFI_UNICAST}, Enabled: true},
+			PrefixLimits: &api.PrefixLimit{Family: &api.Family{Afi: api.Family_AFI_IP, Safi: api.Family_SAFI_UNICAST},
+				MaxPrefixes: uint32(cfg.prefixLimit)},
+		}}
+	}
+	return p
+}
+
+func c07StartPeer(t *testing.T, cfg c07Cfg, peerConf *api.Peer) *c07Sess {
 	ss := &c07Sess{t: t, cfg: cfg, rec: &c07Rec{start: time.Now()}}
 	s := NewBgpServer()
 	ss.s = s
@@ -195,18 +215,9 @@ func c07Start(t *testing.T, cfg c07Cfg) *c07Sess {
 			}
 		}
 	}()
-	p := &api.Peer{
-		Conf:      &api.PeerConf{NeighborAddress: c07PeerAddr, PeerAsn: cfg.peerAS},
-		Transport: &api.Transport{PassiveMode: true},
-		Timers: &api.Timers{Config: &api.TimersConfig{HoldTime: uint64(cfg.hold),
-			KeepaliveInterval: uint64(cfg.hold / 3), IdleHoldTimeAfterReset: uint64(cfg.idleAfterReset)}},
-	}
-	if cfg.prefixLimit > 0 {
-		p.AfiSafis = []*api.AfiSafi{{
-			Config: &api.AfiSafiConfig{Family: &api.Family{Afi: api.Family_AFI_IP, Safi: api.Family_SAFI_UNICAST}, Enabled: true},
-			PrefixLimits: &api.PrefixLimit{Family: &api.Family{Afi: api.Family_AFI_IP, Safi: api.Family_SAFI_UNICAST},
-				MaxPrefixes: uint32(cfg.prefixLimit)},
-		}}
+	p := peerConf
+	if p == nil {
+		p = c07PeerConf(cfg)
 	}
 	if err := s.AddPeer(context.Background(), &api.AddPeerRequest{Peer: p}); err != nil {
 		t.Fatal(err)
@@ -697,6 +708,9 @@ type c07Oracle struct {
 	openHold int  // hold time of that OPEN
 	holdAt   int  // instant the running hold timer was (re)started
 	holdLen  int  // its length, 0 = not running
+	idleLen  int  // what the event that caused the current IDLE period prescribes for its length
+	idleDue  int  // instant the running idle hold timer must fire (-1: not running)
+	idleNo   int  // ordinal of the IDLE period
 }
 
 func (or *c07Oracle) fail(class string, what string) {
@@ -848,6 +862,26 @@ func (or *c07Oracle) check(e c07Ev, before c07Obs, tBefore int, after c07Obs, tA
 		if b == 5 && !(or.rxOpen && or.rxKa) {
 			or.fail("established-without-open-keepalive", "transition "+s)
 		}
+		// every IDLE period lasts exactly what the event that caused it prescribes: nothing at
+		// start-up, idle-hold-time-after-reset after an administrative reset (Cease/4) of an
+		// established session, the default 5 s after anything else — each time anew
+		if a == 0 && b == 2 {
+			if or.idleDue != at {
+				or.fail("idle-hold:wrong-duration", fmt.Sprintf("IDLE period #%d (prescribed length %d s) left at %d, its idle hold timer was due at %d", or.idleNo, or.idleLen, at, or.idleDue))
+			}
+			or.idleDue = -1
+		}
+		if b == 0 {
+			or.idleNo++
+			or.idleLen = 5
+			if e.kind == "reset" && a == 5 {
+				or.idleLen = or.cfg.idleAfterReset
+			}
+			or.idleDue = -1
+			if adm == 0 {
+				or.idleDue = at + or.idleLen
+			}
+		}
 		or.state = b
 		// hold timers, tracked from the RFC: OPENSENT 240 s; OPENCONFIRM/ESTABLISHED negotiated
 		switch b {
@@ -859,6 +893,19 @@ func (or *c07Oracle) check(e c07Ev, before c07Obs, tBefore int, after c07Obs, tA
 			or.holdLen = 0
 			if b == 0 {
 				or.rxOpen, or.rxKa = false, false
+			}
+		}
+	}
+	if before.fsm == 0 && or.state == 0 && !or.gone {
+		switch e.kind {
+		case "enable": // idle() restarts the timer with the pending idle hold time
+			or.idleDue = tAfter + or.idleLen
+		case "disable":
+			or.idleDue = -1
+		case "tick":
+			if or.idleDue >= 0 && or.idleDue <= tAfter {
+				or.fail("idle-hold:wrong-duration", fmt.Sprintf("IDLE period #%d (prescribed length %d s): still IDLE at %d, the idle hold timer was due at %d", or.idleNo, or.idleLen, tAfter, or.idleDue))
+				or.idleDue = -1
 			}
 		}
 	}
@@ -1255,6 +1302,86 @@ func TestVerifC07(t *testing.T) {
 		}
 		c07Scenario(t, o, cfg, r.next()|2, 3+r.intn(maxLen-2), prefix)
 	}
+
+	// (4) histories of several sessions on one fsm: per-peer timer state carried from one
+	// session to the next (idle hold time incl. the override an administrative reset installs,
+	// negotiated hold / keepalive values) must be what the LATEST cause prescribes
+	nh := 160
+	if o.thorough {
+		nh = 1300
+	}
+	for i := 0; i < nh; i++ {
+		cfg := c07Cfg{localAS: 65001, peerAS: 65002, localID: "1.1.1.1"}
+		cfg.hold = r.pick(90, 30, 9, 10)
+		cfg.idleAfterReset = r.pick(7, 30, 30, 60)
+		if r.chance(20) {
+			cfg.prefixLimit = r.pick(2, 3)
+		}
+		sc := c07History(r, cfg, 2+r.intn(3))
+		c07Scenario(t, o, cfg, r.next()|2, len(sc)+1, sc)
+		o.stat("history_scenarios", 1)
+	}
+
+	// (5) management-driven shutdown by prefix-limit edits over several families
+	c07PrefixEdits(t, o, r)
+}
+
+// c07History scripts `cycles` sessions: bring-up, something that ends the session (or the
+// attempt), then silence around the instant the IDLE period has to end.
+func c07History(r *vRand, cfg c07Cfg, cycles int) []c07Ev {
+	var sc []c07Ev
+	tick := func(n int) c07Ev { return c07Ev{kind: "tick", n: n} }
+	for c := 0; c < cycles; c++ {
+		op := c07GenOpen(r, cfg, "outgoing") // an acceptable OPEN, any layout, hold time anew
+		op.kind = "open"
+		op.nocap, op.myas, op.layout = false, c07MyAS(op.as), ""
+		stage := r.pick(1, 2, 3, 3, 3, 3) // how far the attempt gets: OPENSENT, OPENCONFIRM, ESTABLISHED
+		sc = append(sc, c07Ev{kind: "connect"})
+		if stage >= 2 {
+			sc = append(sc, op)
+		}
+		if stage >= 3 {
+			sc = append(sc, c07Ev{kind: "keepalive"})
+			if r.chance(30) {
+				sc = append(sc, c07Ev{kind: "update", n: 1})
+			}
+		}
+		hold := min(op.hold, cfg.hold)
+		want := 5 // length of the IDLE period the ender causes
+		switch k := r.intn(12); {
+		case k < 3:
+			sc = append(sc, c07Ev{kind: "reset"})
+			if stage == 3 {
+				want = cfg.idleAfterReset
+			} else { // no session to reset: ends the attempt some other way
+				sc = append(sc, c07Ev{kind: "close"})
+			}
+		case k == 3:
+			sc = append(sc, c07Ev{kind: "shutdown"}, c07Ev{kind: "close"})
+		case k == 4:
+			sc = append(sc, c07Ev{kind: "close"})
+		case k == 5:
+			sc = append(sc, c07Ev{kind: "connlost", n: 1 + r.intn(3)})
+		case k == 6:
+			sc = append(sc, c07Ev{kind: "notification"})
+		case k == 7:
+			sc = append(sc, c07Ev{kind: "badheader", n: r.intn(4)})
+		case k == 8 && stage >= 2 && hold > 0:
+			sc = append(sc, tick(hold)) // hold timer expiry
+		case k == 9:
+			sc = append(sc, c07Ev{kind: "disable"}, tick(r.pick(1, 6, 31)), c07Ev{kind: "enable"})
+		case k == 10 && stage == 1:
+			bad := op
+			bad.hold = 1
+			sc = append(sc, bad)
+		default:
+			sc = append(sc, c07Ev{kind: "close"})
+		}
+		// silence: just short of / exactly / past the prescribed end, then surely past everything
+		sc = append(sc, tick(r.pick(want-1, want, want, 4, 5, 6, cfg.idleAfterReset-1, cfg.idleAfterReset)))
+		sc = append(sc, tick(cfg.idleAfterReset+6))
+	}
+	return sc
 }
 
 // ---------------------------------------------------------------------------------------------
@@ -1711,5 +1838,214 @@ func c07Collisions(t *testing.T, o *vOut) {
 				c07Collision(t, o, cfg, path, inc, out)
 			}
 		}
+	}
+}
+
+// ---------------------------------------------------------------------------------------------
+// Prefix-limit edits by UpdatePeer on a multi-family peer (real BgpServer, real session in the
+// bubble): families in every order, each holding some prefixes, each limit edited to a value the
+// family overruns / does not overrun / left alone.  Compared with the model's pfxEditShuts;
+// oracle (RFC 4486, RFC 4271 6.7): the session leaves ESTABLISHED with Cease / Maximum Number of
+// Prefixes Reached and the peer becomes pfx_ct iff SOME family exceeds its configured maximum
+// after the edit; otherwise nothing happens — and a later UPDATE that overruns a new limit does
+// shut it.
+
+type c07Fam struct {
+	name   string // v4 v6 m4 (IPv4 multicast: configured, never carries a route here)
+	count  int
+	oldMax int
+	newMax int
+}
+
+func (f c07Fam) api(max int) *api.AfiSafi {
+	fam := map[string]*api.Family{
+		"v4": {Afi: api.Family_AFI_IP, Safi: api.Family_SAFI_UNICAST},
+		"v6": {Afi: api.Family_AFI_IP6, Safi: api.Family_SAFI_UNICAST},
+		"m4": {Afi: api.Family_AFI_IP, Safi: api.Family_SAFI_MULTICAST},
+	}[f.name]
+	return &api.AfiSafi{Config: &api.AfiSafiConfig{Family: fam, Enabled: true},
+		PrefixLimits: &api.PrefixLimit{Family: fam, MaxPrefixes: uint32(max)}}
+}
+
+func c07PrefixEdit(t *testing.T, o *vOut, fams []c07Fam, thenOverrun bool) {
+	synctest.Test(t, func(t *testing.T) {
+		cfg := c07Cfg{localAS: 65001, peerAS: 65002, localID: "1.1.1.1", hold: 90, idleAfterReset: 30}
+		conf := func(edited bool) *api.Peer {
+			p := c07PeerConf(cfg)
+			for _, f := range fams {
+				m := f.oldMax
+				if edited {
+					m = f.newMax
+				}
+				p.AfiSafis = append(p.AfiSafis, f.api(m))
+			}
+			return p
+		}
+		ss := c07StartPeer(t, cfg, conf(false))
+		defer ss.stop()
+		ss.connect()
+		caps := []bgp.ParameterCapabilityInterface{bgp.NewCapFourOctetASNumber(65002), bgp.NewCapRouteRefresh()}
+		for _, f := range fams {
+			caps = append(caps, bgp.NewCapMultiProtocol(map[string]bgp.Family{"v4": bgp.RF_IPv4_UC, "v6": bgp.RF_IPv6_UC, "m4": bgp.RF_IPv4_MC}[f.name]))
+		}
+		m, _ := bgp.NewBGPOpenMessage(65002, 90, netip.MustParseAddr("2.2.2.2"), []bgp.OptionParameterInterface{bgp.NewOptionParameterCapability(caps)})
+		b, _ := m.Serialize()
+		ss.send(ss.pas, b)
+		ss.send(ss.pas, c07Keepalive())
+		synctest.Wait()
+		ss.remoteAS, ss.inEstablished = 65002, true
+		for _, f := range fams {
+			switch {
+			case f.count > 0 && f.name == "v4":
+				ss.send(ss.pas, ss.update(f.count, false))
+			case f.count > 0 && f.name == "v6":
+				ss.send(ss.pas, ss.update6(f.count))
+			}
+		}
+		synctest.Wait()
+		desc := ""
+		line := "pfxedit"
+		want := false
+		for _, f := range fams {
+			got := ss.famCount(f.name)
+			desc += fmt.Sprintf(" %s:count=%d,max %d->%d", f.name, got, f.oldMax, f.newMax)
+			line += fmt.Sprintf(" %d %d %d", got, f.oldMax, f.newMax)
+			if got != f.count {
+				t.Fatalf("prefix-limit edit scenario: %s holds %d prefixes, wanted %d", f.name, got, f.count)
+			}
+			if f.newMax > 0 && got > f.newMax { // the rule of RFC 4486 subcode 1, restated
+				want = true
+			}
+		}
+		if st := ss.peer.fsm.state.Load(); st != bgp.BGP_FSM_ESTABLISHED {
+			t.Fatalf("prefix-limit edit scenario: session not established (%v)%s", st, desc)
+		}
+		ss.rec.drain()
+		if _, err := ss.s.UpdatePeer(context.Background(), &api.UpdatePeerRequest{Peer: conf(true)}); err != nil {
+			t.Fatalf("UpdatePeer: %v", err)
+		}
+		synctest.Wait()
+		verdict := func() (string, string) {
+			out, _ := ss.rec.drain()
+			sent := strings.Join(out, " ")
+			st, adm := ss.peer.fsm.state.Load(), ss.peer.fsm.adminState.Load()
+			switch {
+			case strings.Contains(sent, "p:notif-6-1@") && st != bgp.BGP_FSM_ESTABLISHED && adm == adminStatePfxCt:
+				return "cease-6-1", sent
+			case sent == "" && st == bgp.BGP_FSM_ESTABLISHED && adm == adminStateUp:
+				return "stays", sent
+			}
+			return fmt.Sprintf("wrote [%s] state %v admin %v", sent, st, adm), sent
+		}
+		got, sent := verdict()
+		o.ask(got, "%s", line)
+		detail := map[string]any{"families (in configuration order)": strings.TrimSpace(desc),
+			"what": fmt.Sprintf("after UpdatePeer: %s (daemon wrote [%s])", got, sent)}
+		switch {
+		case want && got != "cease-6-1":
+			o.fail("prefix-limit-edit:overrun-not-shut", detail)
+		case !want && got != "stays":
+			o.fail("prefix-limit-edit:shut-without-overrun", detail)
+		}
+		o.stat("pfxedit_"+map[bool]string{true: "overrun", false: "within"}[want], 1)
+		if !want && thenOverrun && got == "stays" {
+			// limit reached on RECEIVE under the edited configuration
+			for _, f := range fams {
+				if f.newMax > 0 && (f.name == "v4" || f.name == "v6") {
+					n := f.newMax - f.count + 1
+					if f.name == "v4" {
+						ss.send(ss.pas, ss.update(n, false))
+					} else {
+						ss.send(ss.pas, ss.update6(n))
+					}
+					synctest.Wait()
+					if got2, sent2 := verdict(); got2 != "cease-6-1" {
+						detail["what"] = fmt.Sprintf("then %d more %s prefixes (limit %d): %s (daemon wrote [%s])", n, f.name, f.newMax, got2, sent2)
+						o.fail("prefix-limit-edit:receive-overrun-not-shut", detail)
+					}
+					o.stat("pfxedit_then_receive_overrun", 1)
+					break
+				}
+			}
+		}
+	})
+}
+
+func (ss *c07Sess) famCount(name string) int {
+	n := 0
+	_ = ss.s.mgmtOperation(func() error {
+		n = ss.peer.adjRibIn.Count([]bgp.Family{map[string]bgp.Family{"v4": bgp.RF_IPv4_UC, "v6": bgp.RF_IPv6_UC, "m4": bgp.RF_IPv4_MC}[name]})
+		return nil
+	}, false)
+	return n
+}
+
+// update6 announces n fresh IPv6 /48 prefixes (MP_REACH_NLRI) from the eBGP peer
+func (ss *c07Sess) update6(n int) []byte {
+	nlri := make([]bgp.PathNLRI, 0, n)
+	for i := 0; i < n; i++ {
+		ss.nPfx++
+		p, _ := bgp.NewIPAddrPrefix(netip.MustParsePrefix(fmt.Sprintf("2001:db8:%x::/48", ss.nPfx)))
+		nlri = append(nlri, bgp.PathNLRI{NLRI: p})
+	}
+	mp, _ := bgp.NewPathAttributeMpReachNLRI(bgp.RF_IPv6_UC, nlri, netip.MustParseAddr("2001:db8:ffff::2"))
+	attrs := []bgp.PathAttributeInterface{
+		bgp.NewPathAttributeOrigin(0),
+		bgp.NewPathAttributeAsPath([]bgp.AsPathParamInterface{bgp.NewAs4PathParam(bgp.BGP_ASPATH_ATTR_TYPE_SEQ, []uint32{uint32(ss.remoteAS)})}),
+		mp,
+	}
+	b, _ := bgp.NewBGPUpdateMessage(nil, attrs, nil).Serialize()
+	return b
+}
+
+func c07PrefixEdits(t *testing.T, o *vOut, r *vRand) {
+	// deterministic: every order of the three families x v4 / v6 over or not after the edit
+	orders := [][]string{{"v4", "v6", "m4"}, {"v6", "v4", "m4"}, {"m4", "v4", "v6"}, {"v4", "m4", "v6"}, {"v6", "m4", "v4"}, {"m4", "v6", "v4"}, {"v4", "v6"}, {"v6", "v4"}}
+	for _, ord := range orders {
+		for mask := 0; mask < 4; mask++ {
+			var fams []c07Fam
+			for _, n := range ord {
+				f := c07Fam{name: n}
+				switch n {
+				case "v4":
+					f.count, f.newMax = 3, map[bool]int{true: 2, false: 100}[mask&1 != 0]
+				case "v6":
+					f.count, f.newMax = 2, map[bool]int{true: 1, false: 50}[mask&2 != 0]
+				case "m4":
+					f.newMax = 10
+				}
+				fams = append(fams, f)
+			}
+			c07PrefixEdit(t, o, fams, mask == 0)
+		}
+	}
+	n := 40
+	if o.thorough {
+		n = 400
+	}
+	for i := 0; i < n; i++ {
+		names := [][]string{{"v4", "v6"}, {"v6", "v4"}, {"v4", "v6", "m4"}, {"m4", "v6", "v4"}, {"v6", "m4", "v4"}, {"v4"}}[r.intn(6)]
+		var fams []c07Fam
+		for _, nm := range names {
+			f := c07Fam{name: nm}
+			if nm != "m4" {
+				f.count = r.intn(5)
+			}
+			f.oldMax = r.pick(0, 0, 0, 10, f.count, f.count+1)
+			switch r.intn(5) {
+			case 0:
+				f.newMax = f.oldMax // family not edited
+			case 1:
+				f.newMax = max(f.count-1, 0) // overrun (unless that makes it "no limit")
+			case 2:
+				f.newMax = f.count // exactly at the limit: fine
+			case 3:
+				f.newMax = f.count + 1 + r.intn(3)
+			case 4:
+				f.newMax = r.pick(0, 1, 2, 100)
+			}
+			fams = append(fams, f)
+		}
+		c07PrefixEdit(t, o, fams, r.chance(50))
 	}
 }
